@@ -90,6 +90,12 @@ CLAIMS["C18"] = dict(
   technique="edge dominance over normalised comparisons + comparator-closure inspection + bounds prover",
   ref="DESIGN.md §3 C18")
 
+CLAIMS["C16"] = dict(
+  text="Lockset and spawn-site rules: the fields of RequestCache and CombinedNativeClient named in the frozen guarded-by table are accessed only with their mutex held on every path (must-hold dataflow over Lock/Unlock/defer), the scan-progress fields read by RunFS's status goroutine are written and (in that goroutine) read only under statusMu; RequestCache.Get tests for a cached and for a pending value and registers the new call in one critical section, calls the fetch function unlocked, signals the waiters, re-examines/removes the pending entry on every path after the fetch and caches only successes; goroutines spawned in a loop never get append(<shared slice>, ...); each spawn is paired with one counter increment, the worker sends exactly once, and the patch list returned is SortFunc then CompactFunc with the same comparator. Level 'other': necessary conditions for race-freedom and schedule-independence; linearizability and equality across schedules are not decided.",
+  note="Trusted: go/ssa, the guarded-by table in c16.go (confirmed by reading), sync.Mutex semantics; aliasing of mutex receivers is by access path.",
+  technique="must-hold lockset dataflow, atomic-section path search, spawn-site argument freshness, pairing rules",
+  ref="DESIGN.md §3 C16")
+
 NA = {}
 
 
